@@ -56,6 +56,12 @@ class PyObj(object):
         return "PyObj(%s)" % (self.name or self.obj,)
 
 
+class ExternalMethod(object):
+    """a method of an opaque object, modelled by an assumed contract (spec `externals`)"""
+    def __init__(self, handler, obj, name):
+        self.handler, self.obj, self.name = handler, obj, name
+
+
 class SuperProxy(object):
     def __init__(self, obj, after):
         self.obj, self.after = obj, after
@@ -152,6 +158,8 @@ class Engine(object):
         self.cur_mod = mod
         self.pure_depth = 0
         self._ghost_hits = set()
+        self.fn_stack = [func_node]
+        self._deco_cache = {}
         if func_node is not None:
             self._number_sites(func_node)
 
@@ -188,6 +196,10 @@ class Engine(object):
                 counters[kind] = counters.get(kind, 0) + 1
                 self._site_ord[id(n)] = (kind, counters[kind] - 1)
 
+    @property
+    def in_main(self):
+        return self.fn_stack[-1] is self.fn
+
     def site(self, node):
         return self._site_ord.get(id(node), ("x", 0))
 
@@ -201,7 +213,7 @@ class Engine(object):
         if label:
             name += "/" + label
         ob = Obligation(name, kind, st.pc, goal, getattr(node, "lineno", 0),
-                        (self.mod.segment(node) if node is not None and self.depth == 0 else "")[:200], self.target, extra)
+                        (self.mod.segment(node) if node is not None and self.in_main else "")[:200], self.target, extra)
         ob.rand = st.rand
         self.obligations.append(ob)
         if isinstance(goal, bool):
@@ -757,9 +769,13 @@ class Engine(object):
             m = self.find_method(base.cls, attr)
             if m is not None:
                 fv, kind = m
+                fv = self.decorated(fv.bind(base), st)
                 if kind == "property":
-                    return self.call_function(fv.bind(base), [], {}, st, node)
-                return [(st, fv.bind(base))]
+                    return self.call_function(fv, [], {}, st, node)
+                return [(st, fv)]
+            ext = self.externals.get(base.cls + "." + attr)
+            if ext is not None:
+                return [(st, ExternalMethod(ext, base, attr))]
             raise EngineError("object of class %s has no modelled attribute %s" % (base.cls, attr))
         if isinstance(base, SuperProxy):
             m = self.find_method_after(base.obj.cls, base.after, attr)
@@ -812,6 +828,43 @@ class Engine(object):
                     return [(st, base)]
             return [(st, BoundBuiltin(attr, base))]
         raise EngineError("attribute %s of %r" % (attr, type(base).__name__))
+
+    DOC_ONLY_DECORATORS = ("add_signature_to_docstring", "wraps", "add_int_enums_to_docstring")
+
+    def decorated(self, fv, st):
+        """apply the behavioural decorators of a def (documentation-only ones are dropped)"""
+        node = fv.node
+        if isinstance(node, ast.Lambda) or not node.decorator_list:
+            return fv
+        key = (id(node), id(fv.bound) if fv.bound is not None else 0)
+        cur = FuncV(node, fv.mod, fv.closure, None, fv.cls, fv.qual)
+        changed = False
+        saved = self.cur_mod
+        self.cur_mod = fv.mod
+        try:
+            for d in reversed(node.decorator_list):
+                dn = d.func if isinstance(d, ast.Call) else d
+                name = dn.id if isinstance(dn, ast.Name) else (dn.attr if isinstance(dn, ast.Attribute) else None)
+                if name in ("property", "classmethod", "staticmethod", "abstractmethod") or name in self.DOC_ONLY_DECORATORS:
+                    continue
+                policy = self.options.get("decorators", {}).get(name)
+                if policy == "identity":
+                    continue
+                r = self.ev(d, State({}, st.pc))
+                if len(r) != 1 or isinstance(r[0][1], Raised):
+                    raise EngineError("decorator %s could not be evaluated" % name)
+                r2 = self.call(r[0][1], [cur], {}, State({}, st.pc), None)
+                if len(r2) != 1 or not isinstance(r2[0][1], FuncV):
+                    raise EngineError("decorator %s does not return a function" % name)
+                cur = r2[0][1]
+                changed = True
+        finally:
+            self.cur_mod = saved
+        if not changed:
+            return fv
+        if fv.bound is not None:
+            cur = cur.bind(fv.bound)
+        return cur
 
     def find_method(self, clsname, attr):
         cr = self.class_by_name(clsname)
@@ -1208,6 +1261,13 @@ class Engine(object):
             return self.call_function(fv, args, kwargs, st, node)
         if isinstance(fv, (PyObj, BoundBuiltin, ClassRef)):
             return builtins_model.call_builtin(self, fv, args, kwargs, st, node)
+        if isinstance(fv, ExternalMethod):
+            out = []
+            for s2, val, newobj in fv.handler(self, fv.obj, args, kwargs, st, node):
+                if newobj is not None and newobj is not fv.obj and isinstance(node, ast.Call) and isinstance(node.func, ast.Attribute):
+                    s2 = self.assign(node.func.value, newobj, s2, node)
+                out.append((s2, val))
+            return out
         raise EngineError("call of %r (line %s)" % (fv, getattr(node, "lineno", "?")))
 
     def bind_params(self, fv, args, kwargs, st, node):
@@ -1284,16 +1344,17 @@ class Engine(object):
         inner = State(env, st.pc, ListV([]) if is_gen else None, st.trace, st.rand, st.ghost)
         self.cur_mod = fv.mod
         self.depth += 1
-        saved_fn_sites = None
+        self.fn_stack.append(fv.node)
         try:
             if isinstance(fv.node, ast.Lambda):
                 results = [("return", s, v) for s, v in self.ev(fv.node.body, inner)]
             else:
-                if self.depth >= 1 and not any(id(n) in self._site_ord for n in fv.node.body[:1]):
+                if fv.node is not self.fn and not any(id(n) in self._site_ord for n in fv.node.body[:1]):
                     self._number_sites_inlined(fv.node)
                 results = self.exec_block(fv.node.body, inner)
         finally:
             self.depth -= 1
+            self.fn_stack.pop()
             self.cur_mod = caller_mod
         out = []
         for kind, s, v in results:
@@ -1457,7 +1518,7 @@ class Engine(object):
             raise EngineError("statement %s not in the subset (line %d)" % (type(node).__name__, node.lineno))
         res = m(node, st)
         ga = self.options.get("ghost_asserts")
-        if ga and self.depth == 0 and not self.pure_depth:
+        if ga and self.in_main and not self.pure_depth:
             text = " ".join(self.mod.segment(node).split())
             fns = ga.get(text)
             if fns:
@@ -1741,7 +1802,7 @@ class Engine(object):
     # -- loops
     def st_While(self, node, st):
         kind, ordn = self.site(node)
-        spec = self.loops.get(ordn) if self.depth == 0 else None
+        spec = self.loops.get(ordn) if self.in_main else None
         if spec is None or not spec.invariant:
             return self.unroll_while(node, st, spec)
         return self.loop_with_invariant(node, st, spec, ordn, None)
@@ -1781,7 +1842,7 @@ class Engine(object):
 
     def st_For(self, node, st):
         kind, ordn = self.site(node)
-        spec = self.loops.get(ordn) if self.depth == 0 else None
+        spec = self.loops.get(ordn) if self.in_main else None
         out = []
         for s, itv in self.ev(node.iter, st):
             if isinstance(itv, Raised):
